@@ -222,6 +222,28 @@ def run(rep, tier, seed, model_ok=True, effort=1):
             rep.violation("--dry exits 0 but the real run fails", input=inp, **{"class": "dry-ok-real-fails"})
         elif c_dry == 0 and not after.get("a.txt", b"").startswith("# Caf\u00e9 M\u00fcnch \u2713\n".encode("utf-8")):
             rep.violation("the real run changed bytes the --dry diff did not announce", input=inp, **{"class": "dry-real-differ"})
+    # committing switched off (--no-commit / commit = false) in a repository with uncommitted changes: nothing is going to be committed, so the
+    # working tree's state does not matter -- --dry and the real run agree (both go through)
+    for how in ("flag", "config"):
+        for dirty in ("other.txt", "a.txt"):
+            prj = project.TempProject("MAJOR.MINOR.PATCH", "1.2.3", files={"a.txt": ["ver = {version}"]}, contents={"a.txt": "ver = 1.2.3\nnotes\n", "other.txt": "x\n"},
+                                      commit=(how == "flag"), tag=False, push=False, vcs="git")
+            with prj:
+                open(prj.path(dirty), "a").write("uncommitted\n")
+                extra = ["--no-commit"] if how == "flag" else []
+                before = prj.snapshot()
+                c_dry, o_dry, l_dry, _ = prj.run(impl, ["update", "--no-fetch", "--patch", "--dry"] + extra)
+                mid = prj.snapshot()
+                c_real, o_real, l_real, _ = prj.run(impl, ["update", "--no-fetch", "--patch"] + extra)
+                after = prj.snapshot()
+            rep.case(("no-commit-dirty", how, dirty), nontrivial=c_dry == 0)
+            inp = dict(version_pattern="MAJOR.MINOR.PATCH", commit_off_by=how, dirty_file=dirty, dry_exit=c_dry, real_exit=c_real, logs=l_real[-3:])
+            if mid != before:
+                rep.violation("--dry changed files", input=inp, **{"class": "dry-writes"})
+            if c_dry == 0 and c_real != 0:
+                rep.violation("--dry exits 0 but the real run with the same arguments fails (committing is off, the tree has uncommitted changes)", input=inp, **{"class": "dry-ok-real-fails"})
+            elif c_dry == 0 and b"ver = 1.2.4" not in after.get("a.txt", b""):
+                rep.violation("the real run did not write what --dry announced", input=inp, **{"class": "dry-real-differ"})
     # a configured file that is not valid UTF-8: whatever --dry says, the real run agrees (same exit status; when both succeed the real file is the
     # dry diff applied, which the stream above checks for UTF-8 files)
     for vp, cur, args_ in (("MAJOR.MINOR.PATCH", "1.2.3", ["--patch"]), ("{semver}", "1.2.3", ["--patch"])):
